@@ -13,6 +13,37 @@ PROP = dict(
                     ["pkg/queue/lock_free_queue.go", _VATOMIC],
                     ["pkg/netpoll/syscall_epoll_generic_linux.go", _VSYS]]),
     ],
-    rule="WIP",
-    trusted=[], assumptions=[],
+    rule="a case is one schedule of the REAL poller (OpenPoller, Trigger, Polling, lock_free_queue.go of the current "
+         "tree; both build variants) under the cooperative scheduler: thread 0 runs Polling, 1..4 producers issue 1..6 "
+         "requests each (high/low priority, wake/close/plain, with or without callback, some bodies and I/O callbacks "
+         "re-triggering), threshold 0/1/2/3/1024 set through an export file, MaxAsyncTasksAtOneTime read from the code; "
+         "one granted step = one atomic operation or one eventfd/epoll system call; epoll_wait is always issued with "
+         "timeout 0 against the real epoll/eventfd, a -1 wait that finds nothing parks the loop until an eventfd write; "
+         "schedules: seeded random with stickiness, PCT-style priorities (depth 1..4), every schedule with <= 2 (thorough: 3) "
+         "preemptions for four small configurations, >256 queued low-priority requests (batch limit), eventfd counter "
+         "preloaded to its maximum (EAGAIN), I/O events in the same batch as the wake-up; the model replays the schedule "
+         "and must predict every observation (operation class, location class, value, CAS outcome, system-call result, "
+         "delivered events, executed request ids in order, callbacks, OnTraffic); queue-internal atomic operations that "
+         "are not linearization points are stutter steps; direct oracle at every quiescent point (confirmed by a real "
+         "epoll_wait returning 0): every accepted request ran exactly once, callbacks once, high-priority per-producer "
+         "order; plus unmanaged stress: 8 real goroutines x 2500 (thorough 20000) Trigger calls against a real blocking "
+         "Polling loop; non-trivial = lost CAS, re-check CAS/write, EAGAIN, low queue, nested trigger, I/O event, "
+         "negative length, batch limit occurred; distinct by hash of the op lines",
+    trusted=["shims harness/export/vatomic, harness/export/vsched, harness/shim/vunix (eventfd read/write, epoll_wait of the "
+             "default poller), harness/export/vsys (SYS_EPOLL_WAIT of the poll_opt poller), overlaid as packages of the gnet "
+             "module; import swaps of sync/atomic and golang.org/x/sys/unix in scratch copies of poller_epoll_*.go, "
+             "lock_free_queue.go, syscall_epoll_generic_linux.go",
+             "harness/export/netpoll_wakeup*_export.go (addresses of wakeupCall and of the queues, the eventfd, setter of "
+             "highPriorityEventsThreshold) and queue_lfq_export.go",
+             "drv-wakeup's classification of the lock-free queue's atomic operations into link / count / unlink / decount / "
+             "empty / internal (the queue itself is C13's subject)"],
+    assumptions=["sync/atomic is sequentially consistent; an interleaving of single atomic operations and system calls is the unit of concurrency",
+                 "the two task queues behave as the atomic-queue specification with the length counter lagging as in C13_length_lag (single dequeuer)",
+                 "Linux eventfd/epoll semantics as modelled: a write raises a fresh edge for an EPOLLET registration even when the counter is already non-zero, "
+                 "a reported edge is reported once, a pending edge is not reported when the counter has been reset to 0, the ready list fits the event buffer; "
+                 "an eventfd write fails only with EAGAIN (hypothesis g_fault = false)",
+                 "the int32 length counters do not leave the int32 range (hypothesis g_ovf = false)",
+                 "the engine keeps running: the loop does not exit (shutdown, callback errors) while requests are outstanding",
+                 "weak fairness of the Go scheduler and the kernel is assumed for 'eventually executed'; what is proved is quiescence-or-progress",
+                 "user callbacks and task bodies terminate"],
 )
